@@ -1,9 +1,9 @@
 #!/bin/bash
 # Confirm a sub-agent's seeded change in its scratch worktree and file it under /verif/seeded/<id>/.
-# usage: confirm_seeded.sh <property-id> [name-suffix]
+# usage: confirm_seeded.sh <worktree-name, ending in the property id, e.g. R2C07> [seeded-dir-name]
 set -u
-id=$1; name=${2:-$1}
-wt=/tmp/wt/$id
+wtname=$1; id=${wtname: -3}; name=${2:-$id}
+wt=/tmp/wt/$wtname
 cd $wt || exit 2
 demo=tests/seeded_demo.rs
 [ -f $demo ] || demo=$(ls _seeded/*.rs 2>/dev/null | head -1)
